@@ -273,6 +273,15 @@ def run_e1(res, pid, scs, wd, name, levels=True):
         r, pick = _level_sample(res, scs)
         if pick:
             report_e1(res, pid, e1.check_scripts(res, e1.at_levels(pick, [[3, 2, 2], r.choice(e1.DECODES)], 0), wd, name + "lv"))
+            # ... and over a transport that takes only a few bytes per write call (every frame must still go out whole)
+            pw = []
+            for i, s in enumerate(pick):
+                c = dict(s)
+                c["id"] = i
+                c["max_write"] = r.choice([1, 7, 64])
+                c["tag"] = s["tag"] + f"+partial-writes{c['max_write']}"
+                pw.append(c)
+            report_e1(res, pid, e1.check_scripts(res, pw, wd, name + "pw"))
 
 
 @check("C02")
@@ -511,6 +520,15 @@ def run_e2(res, pid, scs, wd, name, levels=True):
         r, pick = _level_sample(res, scs)
         if pick:
             report_e2(res, pid, e2.check_scripts(res, e2.at_levels(pick, [[3, 2, 2], r.choice(e2.DECODES)]), wd, name + "lv"))
+            pw = []
+            for i, s in enumerate(x for x in pick if x.get("mode", "session") == "session"):
+                c = dict(s)
+                c["id"] = i
+                c["max_write"] = r.choice([1, 7, 64])
+                c["tag"] = s["tag"] + f"+partial-writes{c['max_write']}"
+                pw.append(c)
+            if pw:
+                report_e2(res, pid, e2.check_scripts(res, pw, wd, name + "pw"))
 
 
 def _replay_e2(res, pid, obj, wd):
